@@ -4,6 +4,7 @@ import (
 	"fmt"
 	"math"
 	"math/big"
+	"strings"
 
 	"github.com/tidwall/geojson"
 	"github.com/tidwall/geojson/geometry"
@@ -123,6 +124,17 @@ func c11CheckAll(o geojson.Object) (fails [][3]string) {
 	if !ok {
 		return
 	}
+	return c11CheckPositions(o, all, occ)
+}
+
+// c11CheckPositions: the accessors of o against the given positions (all of
+// them, and those of the parts that occupy space).
+func c11CheckPositions(o geojson.Object, all, occ []geometry.Point) (fails [][3]string) {
+	defer func() {
+		if r := recover(); r != nil {
+			fails = append(fails, [3]string{"panic", "no panic", fmt.Sprint(r)})
+		}
+	}()
 	empty := len(occ) == 0
 	if o.Empty() != empty {
 		fails = append(fails, [3]string{"empty", fmt.Sprint(empty), fmt.Sprint(o.Empty())})
@@ -293,6 +305,36 @@ func runC11(r *rt.Run) {
 		}
 		rec([]float64{A[first]})
 	})
+	// polygons read from documents under AllowRects (whatever kind Parse builds
+	// for them): the accessors are functions of the document's positions
+	L := c11RingLattice
+	r.Bounds["parsed_ring_lattice"] = fmt.Sprintf("%d positions, every closed ring of 4 and 5 positions, 3 wrappings, AllowRects on/off", len(L))
+	r.ParFor(len(L)*len(L), func(i int, w *rt.Worker) {
+		for k := 0; k < len(L); k++ {
+			for l := -1; l < len(L); l++ {
+				idx := []int{i / len(L), i % len(L), k}
+				if l >= 0 {
+					idx = append(idx, l)
+				}
+				w.Trans++
+				for variant := 0; variant < 6; variant++ {
+					w.States++
+					w.Nontriv++
+					w.Evals += 4
+					for _, f := range c11RingDoc(idx, variant) {
+						what, exp, got := f[0], f[1], f[2]
+						nums := make([]float64, len(idx))
+						for j, v := range idx {
+							nums[j] = float64(v)
+						}
+						w.Fail("parsed-ring-"+what, func() (rt.Case, string, string) {
+							return rt.Case{Kind: "attrs", Op: what, Nums: nums, X: map[string]string{"ringdoc": fmt.Sprint(variant)}}, exp, got
+						})
+					}
+				}
+			}
+		}
+	})
 	// the object pool
 	size := 0
 	if r.Thorough() {
@@ -316,9 +358,73 @@ func runC11(r *rt.Run) {
 	r.Sample(rt.Case{Kind: "attrs", Op: "rect", Nums: []float64{180, math.Nextafter(180, 181), -5e-324}, X: map[string]string{"mode": "2", "obj": "4"}})
 }
 
+var c11RingLattice = func() []geometry.Point {
+	var out []geometry.Point
+	for _, x := range []float64{-200, -2, 0, 4} {
+		for _, y := range []float64{-100, 0, 3} {
+			out = append(out, geometry.Point{X: x, Y: y})
+		}
+	}
+	return out
+}()
+
+// c11RingDoc: the closed ring through the lattice positions idx as a Polygon
+// document: variant&1 = AllowRects, variant/2 = bare / Feature / member of a
+// GeometryCollection next to a point.
+func c11RingDoc(idx []int, variant int) [][3]string {
+	var ps []geometry.Point
+	for _, i := range idx {
+		if i < 0 || i >= len(c11RingLattice) {
+			return [][3]string{{"harness", "index in range", fmt.Sprint(i)}}
+		}
+		ps = append(ps, c11RingLattice[i])
+	}
+	ps = append(ps, ps[0])
+	var sb strings.Builder
+	sb.WriteString(`{"type":"Polygon","coordinates":[[`)
+	for i, p := range ps {
+		if i > 0 {
+			sb.WriteByte(',')
+		}
+		fmt.Fprintf(&sb, "[%v,%v]", p.X, p.Y)
+	}
+	sb.WriteString(`]]}`)
+	doc := sb.String()
+	all := ps
+	switch variant / 2 {
+	case 1:
+		doc = `{"type":"Feature","geometry":` + doc + `,"properties":{}}`
+	case 2:
+		doc = `{"type":"GeometryCollection","geometries":[{"type":"Point","coordinates":[1,1]},` + doc + `]}`
+		all = append([]geometry.Point{{X: 1, Y: 1}}, ps...)
+	}
+	o, err := geojson.Parse(doc, &geojson.ParseOptions{AllowRects: variant&1 == 1, IndexChildren: 64, IndexGeometry: 64})
+	if err != nil {
+		return [][3]string{{"parse", "accepted", err.Error()}}
+	}
+	return c11CheckPositions(o, all, all)
+}
+
 func evalC11(c *rt.Case) (bool, string, string, error) {
 	if c.Kind != "attrs" {
 		return false, "", "", fmt.Errorf("not mine")
+	}
+	if v, ok := c.X["ringdoc"]; ok {
+		var variant int
+		fmt.Sscan(v, &variant)
+		var idx []int
+		for _, f := range c.Nums {
+			idx = append(idx, int(f))
+		}
+		if len(idx) < 3 || variant < 0 || variant > 5 {
+			return false, "", "", fmt.Errorf("malformed case")
+		}
+		for _, f := range c11RingDoc(idx, variant) {
+			if f[0] == c.Op {
+				return true, f[1], f[0] + ": " + f[2], nil
+			}
+		}
+		return false, "", "", nil
 	}
 	if d, ok := c.X["pool"]; ok {
 		for size := 0; size < 2; size++ {
